@@ -25,7 +25,8 @@ let parse_ops op =
   | 'l' -> [OpLen]
   | 'b' -> [OpGetBytes]
   | 'i' -> [OpIterBytes]
-  | 'I' -> [OpIterBytes]   (* overlapping another list's iteration: same observable result *)
+  | 'I' -> [OpIterBytes]
+  | 'J' -> [OpIterBytes]   (* drained after a pause: same observable result *)   (* overlapping another list's iteration: same observable result *)
   | _ -> failwith "bad op"
 
 let show = function
